@@ -417,6 +417,13 @@ def check_d(ctx, facts):
             tg = n.targets if isinstance(n, ast.Assign) else [n.target]
             if any(isinstance(t, ast.Name) and t.id == p for t in tg):
                 ctx.violation('C05.d', 'clk-param-rebound', 'the cycle count is modified: `%s`' % norm(n), where)
+    # nothing computed once per clk() call may flow into the per-edge routine (clk(n) must equal n x clk(1))
+    for c in ast.walk(lp):
+        if isinstance(c, ast.Call) and is_call_to(c, '_clk_cycle'):
+            dyn = [norm(a) for a in list(c.args) + [k.value for k in c.keywords] if not isinstance(a, ast.Constant)]
+            if dyn:
+                ctx.violation('C05.d', 'clk-per-call-state', 'the edge routine receives values computed once per clk() call (%s): a run split into several clk() calls behaves differently' % dyn,
+                              where, witness=dict(history='clk(2) versus clk(1); clk(1) with a clock enable that changes between the two edges'))
     okb = True
     for evs, ex in cfg_paths(lp.body):
         k = calls_on_path(evs, lambda c: is_call_to(c, '_clk_cycle'))
